@@ -38,8 +38,12 @@ ASSUME = [
     "struct layout is not modelled (the generated descriptors take &m->field)",
     "CPython 3.12 dataclasses.asdict / dict comprehension / IntEnum / json.dumps behave as modelled in "
     "Json.py_asdict / Json.py_dumps (validated by T2 on to_dict() and on the text of to_json())",
-    "well-formedness of the printed text as JSON: proved for print_compact by the recogniser lemma where stated "
-    "in props/C16.v, otherwise validated by json.loads on every T2 output",
+    "well-formedness: Json(Wf).wf_json is a hand-written recogniser of the RFC 8259 grammar restricted to "
+    "texts without white space / fractions / exponents / escapes; C16_wf_json proves it accepts every "
+    "print_compact output; that the recogniser itself is the JSON grammar is read, not proved (cross-checked by "
+    "json.loads on every T2 output and by rejecting examples); Python's default to_json() text (', ' and ': ' "
+    "separators) is validated by json.loads in T2 only",
+    "field names are bitproto identifiers (letters, digits, underscore): no JSON escaping is needed or performed",
 ]
 
 
@@ -295,7 +299,8 @@ def gen_cases(ck: Check, n_schemas: int, n_values: int) -> List[Tuple[sg.Schema,
 
 BITS = {1: "harness left the theorem's guards", 2: "tie C", 4: "property C (assigned struct)",
         8: "property C (decoded struct)", 16: "tie Python to_dict", 32: "tie Python to_json",
-        64: "tie Python to_json compact", 128: "property Python"}
+        64: "tie Python to_json compact", 128: "property Python",
+        256: "property C (text rejected by the JSON recogniser wf_json)"}
 
 
 def classify(s: sg.Schema, rr: Dict[str, Any]) -> Optional[str]:
@@ -484,7 +489,7 @@ def run_json(ck: Check, prop_file: str, n_quick=(40, 4), n_thorough=(600, 8), op
                   "direct_json_loads_mismatch": direct, "cc_opt": jobs[i].get("opt")}
         if code & 1:
             ck.broken(Broken(f"harness: case {origin}#{k} is outside shape/range/name guards", json.dumps(replay)[:1500]))
-        if code & (4 | 8) or c_direct:
+        if code & (4 | 8 | 256) or c_direct:
             n_prop += 1
             via = "a struct filled by assignment" if (code & 4 or "c_fill" in " ".join(c_direct)) else \
                 "the struct decoded from the Python encoder's bytes"
@@ -497,7 +502,7 @@ def run_json(ck: Check, prop_file: str, n_quick=(40, 4), n_thorough=(600, 8), op
             what = (f"Python to_json() raised {comp.get('exc')}: {comp.get('msg')}" if "exc" in comp else
                     "Python to_json() does not state the specified JSON value")
             ck.violation(what, replay, found_input=True, key=key)
-        if code & (2 | 16 | 32 | 64) and not (code & (4 | 8 | 128)):
+        if code & (2 | 16 | 32 | 64) and not (code & (4 | 8 | 128 | 256)):
             n_tie += 1
             ck.broken(Broken("tie T2: the model (Json.v) and the implementation disagree on "
                              + ", ".join(BITS[b] for b in (2, 16, 32, 64) if code & b)
